@@ -832,6 +832,10 @@ func (w *worker) modeSoak() {
 		pos = probes
 	}
 	hot := pos[(w.ses.Worker/2)%len(pos)]
+	hot2 := pos[(w.ses.Worker/2+1)%len(pos)]
+	if w.ses.Worker%4 < 2 {
+		hot2 = hot // half of the soak workers hammer a single input
+	}
 	const perRun = 5000
 	// burst phase: every positive probe of the hot API 3000 times in a row (token
 	// buckets, per-key counters and adaptive fast paths react to bursts)
@@ -876,7 +880,11 @@ func (w *worker) modeSoak() {
 			api := uint8((done + w.ses.Worker) & 1)
 			switch {
 			case done < 70000:
+				// two positives alternate: counters that ignore an immediate repetition still advance
 				idx, api = hot, hotAPI
+				if done&1 == 1 {
+					idx = hot2
+				}
 			case k%16 == 0:
 				idx = probes[(done/16)%len(probes)]
 			default:
